@@ -240,6 +240,7 @@ def hexital_accessors(names, tfs, n_candles):
         ("Hexital.indicators", lambda h: dict(h.indicators)),
         ("Hexital.timeframes", lambda h: h.timeframes),
         ("Hexital.candles", lambda h: (h.candles(), [h.candles(t) for t in tfs])),
+        ("Hexital.candles-of-an-unregistered-timeframe", lambda h: [h.candles(t) for t in ("T3", "H2", "S45") if t not in tfs]),
         ("Hexital.get_candles", lambda h: h.get_candles()),
         ("Hexital.str-of-candles", lambda h: [str(c) for cs in h.get_candles().values() for c in cs[-2:]]),
     ]
